@@ -383,8 +383,19 @@ NecInspRules(lay, dir, depth) ==
 NecFrame(lay, ckeys, dir, depth) ==
   NecPre(lay, ckeys, dir, depth) /\ NecC08(lay) /\ NecInspRules(lay, dir, depth)
 
+\* C06, second sentence: EVERY sub-layout reached through delegation is unexpired - reached means filed for a
+\* step by a functionary authorised for it and signed by him, whether or not the step needs that evidence
+RECURSIVE NecC06Deep(_, _, _)
+NecC06Deep(lay, dir, depth) ==
+  /\ NecC06(lay)
+  /\ depth > 0 =>
+       \A s \in SR(Doc(lay).steps) : \A f \in DirFiles(dir) :
+          (/\ f.step = s.name /\ Doc(f.doc).typ = "layout"
+           /\ f.fkey \in Authorised(lay, s) /\ DocSignedBy(Doc(f.doc), f.fkey))
+          => NecC06Deep(f.doc, SubDir(dir, s.name, f.fkey), depth - 1)
+
 MaxDepth == 3
-NecTop == NecFrame(1, scn.ckeys, << >>, MaxDepth)
+NecTop == NecFrame(1, scn.ckeys, << >>, MaxDepth) /\ (Doc(1).typ = "layout" => NecC06Deep(1, << >>, MaxDepth))
 
 \* the master only-if invariant
 OkOnlyIfNec == verdict = "ok" => NecTop
